@@ -24,6 +24,9 @@ ENGINES["macho"] = {"path": "harness/src/macho.rs (+ prog.rs)",
 ENGINES["ana"] = {"path": "harness/src/macho.rs (run_ana)",
     "kind": "the four instruction analysers through the verif_hooks::analyze_* hooks on generated functions (every pc), structured words from every instruction class the analysers distinguish (with boundary immediates and register fields) and byte soup, at aligned and unaligned pcs incl. pc = len; compared with the Lean model (anaX64/anaA64) byte for byte"}
 
+ENGINES["mut"] = {"path": "harness/src/mutate.rs",
+    "kind": "hostile data: well-formed modules of every format (generated DWARF in three presentations, Mach-O compact unwind with text and __eh_frame, PE .pdata/.xdata/.text, no data; plus the ELF and Mach-O binaries under /repo/fixtures read with the object crate) are reduced to raw section tables and corrupted - bit flips, truncation, u16/u32 field edits with boundary values, random runs, splices from other sections, appended garbage, noise, swapped/missing sections, reversed/empty/shifted/oversized/below-base ranges, changed image base, absurd module ranges and base addresses; one case in ten stays well-formed - then Module::new, add_module, unwind_frame and iter_frames run under catch_unwind with overflow checks (both allocation policies); a panic located in /repo/src is a violation, panics in dependencies are counted and reported as notes; the case in flight is on disk so that a hang is reported with its input"}
+
 NOT_APPLICABLE = {}
 
 _NOTE = ("Trusted: Lean kernel; axioms propext/Classical.choice/Quot.sound only (audited per theorem on every run); "
@@ -144,6 +147,13 @@ PROPS = {
         "level_text": "Theorems (x86-64, for every choice and order of registers, legacy and REX encodings): stopped anywhere in `pop...; ret` the analysed rule restores exactly the rsp/rbp/return address the CPU will have (machine model runPops); stopped after any prefix of the prologue's pushes the rule finds the return address above them; after `push rbp; mov rbp, rsp; push...` it is the frame pointer rule; frameless opcodes give rules that execute the documented layout (rbp slot by position); dispatch: __stubs/__stub_helper precedence and first-frame-only, function starts are leaves, function bytes are exactly the function's slice of the text; __stub_helper tables equal the documented dyld_stub_binder layout on both architectures; arm64 body rules. arm64 prologue/epilogue word scans: partial - modelled (FH/AnaA64.lean) and tied by correspondence and ground truth, not proved sound against a machine model. Tie: ana (hooks, byte for byte) and macho (whole modules, ground-truth walks).",
         "level_note": _NOTE + " macho-unwind-info's parser (UnwindInfo::lookup, opcode field extraction) is outside the model; the model takes the parsed opcode, recomputed by the harness with the real parser, and the writer exercises regular and compressed pages.",
         "statement": "Mach-O compact unwind: x86-64 prologue/epilogue analysis sound for all push/pop sequences; body rules exact; dispatch order; stub tables; arm64 partial (bodies and stubs proved, word scans by correspondence).",
+    },
+    "C14": {
+        "lean": ["FH.Props.C14"],
+        "engines": ["mut", "ana", "macho"],
+        "level_text": "Theorems over arbitrary module data (tables, opcodes, ranges, text bytes, FDEs, rows all universally quantified - corrupt data included): the instruction analysers are total when the offset lies within the bytes; the compact-unwind dispatch always hands them a slice containing the offset (arbitrary unsorted/overlapping/inverted tables and text ranges), hence never panics; the plan is never `panic` for any module, address and frame kind on both architectures. Partial: the byte-level parsers are third-party and framehop's glue around them (slicing, index construction, range arithmetic) is not modelled at byte level; that part is decided by the mut engine (byte-level corruption of generated and real sections, catch_unwind, overflow checks, panic location attribution, in-flight case file for hangs).",
+        "level_note": _NOTE + " Panics inside gimli / macho-unwind-info / pe-unwind-info on corrupt bytes are outside the property's letter (framehop's own code) and are reported as NOTE lines with a replay, not as violations.",
+        "statement": "No reachable panic outcome in the model's format-specific code for any module data; byte-level hostile inputs by differential-free fault injection on the implementation.",
     },
     "C03": {
         "lean": ["FH.Props.C03"],
